@@ -647,8 +647,10 @@ class Scheduler:
                 try:
                     state = await self.aio_start(job)
                 except Exception:
+                    # (e.g. the job lock could not be taken or released): the
+                    # job cannot run, but it must still reach a final state
                     logger.exception("Got an exception while starting the job")
-                    raise
+                    state = JobState.ERROR
 
                 if state is None:
                     # State is None if this is not the main thread
@@ -672,7 +674,12 @@ class Scheduler:
             self.xp.failedJobs[job.identifier] = job
 
         # Process all remaining tasks outputs
-        await asyncThreadcheck("End of job processing", job.done_handler)
+        try:
+            await asyncThreadcheck("End of job processing", job.done_handler)
+        except Exception:
+            # The job is final: a failing output callback must not prevent
+            # job.wait() and experiment.wait() from returning
+            logger.exception("Error while processing the last outputs of %s", job)
 
         # Decrement the number of unfinished jobs and notify
         self.xp.unfinishedJobs -= 1
